@@ -130,7 +130,13 @@ Proof.
   { unfold slice. rewrite skipn_app, firstn_app. rewrite skipn_length.
     replace (lp_len_b p - lp_len_a p - (length hdr - lp_len_a p))%nat with 0%nat by lia.
     cbn [firstn]. now rewrite app_nil_r. }
-  rewrite Hsl, Hlen.
+  rewrite Hsl.
+  assert (Hcl0 : length (concat descs) = (lp_stride p * length descs)%nat).
+  { clear -Hd. induction Hd as [|d ds Hd _ IH]; [cbn; lia|]. cbn [concat length]. rewrite app_length, IH, Hd. lia. }
+  assert (Hend : N.to_nat (N.min (ba_to_int (slice hdr (lp_len_a p) (lp_len_b p)) + N.of_nat (lp_bias p))
+                                 (N.of_nat (length (hdr ++ concat descs ++ trail)%list))) = (lp_start p + lp_stride p * length descs)%nat).
+  { rewrite !app_length, Hcl0, Hh. lia. }
+  rewrite Hend.
   assert (Hcl : length (concat descs) = (lp_stride p * length descs)%nat).
   { clear -Hd. induction Hd as [|d ds Hd _ IH]; [cbn; lia|]. cbn [concat length]. rewrite app_length, IH, Hd. lia. }
   assert (Hb : slice (hdr ++ concat descs ++ trail)%list (lp_start p) (lp_start p + lp_stride p * length descs) = concat descs).
